@@ -105,6 +105,7 @@ Qualifier EmbeddedInstance : string = null, Scope(property, method, parameter);
 Qualifier EmbeddedObject : boolean = false, Scope(property, method, parameter), Flavor(DisableOverride, ToSubclass);
 Qualifier Values : string[] = null, Scope(property, method, parameter);
 Qualifier MaxLen : uint32 = null, Scope(property, method, parameter);
+Qualifier Override : string = null, Scope(property, reference, method), Flavor(EnableOverride, Restricted);
 class VF_Base { [Key] string Id; uint8 u8; sint64 s64; real32 r32; datetime dt; boolean b; char16 c; string s; uint16 a16[]; string sa[3]; };
 class VF_Sub : VF_Base { [EmbeddedInstance("VF_Base")] string ei; [EmbeddedObject] string eo; [EmbeddedObject] string eoa[]; };
 [Association] class VF_Assoc { [Key] VF_Base REF left; [Key] VF_Base REF right; };
@@ -287,9 +288,13 @@ WORDS = ['class', 'instance', 'of', 'Qualifier', 'Scope', 'Flavor', 'any',
          'include', 'namespace', 'locale', 'Key', 'Description', 'VF_Base',
          'VF_Sub', 'Id', 'p', 'X', '$a', '$', 'Association']
 PUNCT = list('#(){};[],$:==') + ['{', '}', ';', ';', '(', ')', '[', ']']
+LONG_NUMBERS = ['9' * 4301, '9' * 5000, '-' + '1' * 6000, '+' + '8' * 12000,
+                '0x' + 'F' * 5000, '0' + '7' * 5000, '1' * 5000 + 'b',
+                '1.' + '5' * 5000, '1' * 5000 + '.5e1', '1.0e' + '9' * 5000,
+                '0' * 5000, '09' * 2500]
 LITS = ['0', '1', '-1', '+5', '255', '256', '08', '077', '0x1F', '0X', '2b',
         '101b', '1.5', '.5', '1.', '1e5', '1.5e400', '-1.0E-400',
-        '18446744073709551616', '9' * 400, '"abc"', '""', '"a" "b"', '"',
+        '18446744073709551616', '9' * 400, '9' * 5000, '-' + '9' * 4400, '"abc"', '""', '"a" "b"', '"',
         "'a'", "'", "''", "'ab'", "'\\x41'", "'\\''", '"\\x41"', '"\\x"',
         '"\\q"', '"a\\"', '"\\\\"', '"\\x1"', '"\\X004G"', '"tab\there"',
         '"\\n"', '/*', '*/', '//', '/* c */', '// c\n', '\\', '\n', '\t',
@@ -338,12 +343,28 @@ STRING_EDITS = [
 NUMBER_EDITS = ['08', '2b', '0x', '9' * 400, '1.5e999', '-' + '9' * 30,
                 '18446744073709551616', '-129', '256', '65536', '1.', '0b',
                 '00', '+0', '0x' + 'F' * 40, '1' * 70 + 'b', '3.4e39',
-                '"12"', "'1'", 'NULL', 'true', '{1}', '-0.0', '1e5']
+                '"12"', "'1'", 'NULL', 'true', '{1}', '-0.0', '1e5'] + \
+    LONG_NUMBERS
 REPLACEMENTS = ['NULL', 'true', '1', '"s"', "'c'", '{', '}', '(', ')', ';',
                 ',', ':', '=', '[', ']', '$', '#', 'class', 'instance', 'of',
                 'Qualifier', 'Scope', 'Flavor', 'ref', 'as', '$x', 'X',
                 'string', 'uint8', '1.5', '{ }', '{ 1, 2 }', '/*', '"',
                 '#pragma', 'association', 'indication', 'any']
+
+
+# line structures: what separates and starts lines
+WHITESPACE = ['\r', '\r\n', '\n\r', '\n\r\r', '\r\r\r', '\t', '\n\t\r', '\x0b',
+              '\x0c', '\n\n\n', ' \r \r ', '\n\r\r\r ', '\t\t', '\n \t', '\r\n\r\n']
+LINE_ENDS = ['\r\n', '\n\r', '\r', '\n\r\r', '\n\t', '\r\r\n', '\n\r\r\r\r',
+             '\n\n']
+COMMENTS = ['/*\n*/', '/*\n\n\n*/', '/* a\n   b\n   c */', '/**\n * doc\n */\n',
+            '/* x */', '// line\n', '/*\r\n\r\n*/', '/*\n"\n*/', '/*\n//\n*/',
+            '/*' + '\n' * 40 + '*/', '/*\n*//*\n*/']
+
+
+def line_structure(rng, text):
+    """The same text with another line terminator."""
+    return text.replace('\n', rng.choice(LINE_ENDS))
 
 
 def tokenize(text):
@@ -388,9 +409,17 @@ def mutate(rng, text, nmut=None, start=0):
             j = rng.choice(sig)
             if j < len(toks):
                 toks[k], toks[j] = toks[j], toks[k]
-        elif r < 0.56:
+        elif r < 0.50:
             labels.append('replace')
             toks[k] = rng.choice(REPLACEMENTS)
+        elif r < 0.55:
+            # white space and line structure in front of the token
+            labels.append('whitespace')
+            toks.insert(k, rng.choice(WHITESPACE))
+        elif r < 0.60:
+            # a comment (mostly spanning lines) in front of the token
+            labels.append('comment')
+            toks.insert(k, rng.choice(COMMENTS))
         elif r < 0.64:
             labels.append('truncate')
             del toks[k + (1 if rng.random() < 0.5 else 0):]
@@ -454,7 +483,8 @@ VALUES = ['"abc"', '"12"', '""', '300', '-1', '0', '18446744073709551616',
           '"00000001000000.000000:000"', '"notadate"', '"2024"',
           '"/root:VF_Base.Id=\\"x\\""', '"VF_Base.Id=\\"x\\""', '"bad uri"',
           '"//h/n:C"', '0x1F', '077', '08', '101b', '2b', '"\\x41"', '"\\x"',
-          '"\\q"', '"a\\"', '"\\x4"', '9' * 60, '"' + 'a' * 3000 + '"',
+          '"\\q"', '"a\\"', '"\\x4"', '9' * 60, '9' * 4301, '-' + '9' * 5000,
+          '0x' + 'f' * 4400, '"' + 'a' * 3000 + '"',
           '"instance of VF_Base { Id = \\"e\\"; };"',
           '"instance of VF_Base { Id = \\"e\\"; u8 = 300; };"',
           '"instance of VF_Base { Id = \\"e\\"; nope = 1; };"',
@@ -484,7 +514,22 @@ PRAGMA_PARAMS = ['"1:"', '"//h/ns"', '""', '"root/x"', '"/root/x"',
                  '"1"', '"_"', '"root//x"', '"wbem:root"']
 
 
-def directed(rng, n):
+PRAGMA_NAMESPACES = ['other', 'root/other', 'root/cimv2', 'a/b/c', 'interop',
+                     'ROOT/CIMV2']
+EMBEDDED_QUALS = ['[EmbeddedInstance] ', '[EmbeddedInstance("VF_Base")] ',
+                  '[EmbeddedInstance("Nope")] ', '[EmbeddedInstance(NULL)] ',
+                  '[EmbeddedInstance("")] ', '[EmbeddedObject] ',
+                  '[EmbeddedObject(false)] ', '[EmbeddedInstance("VC0")] ']
+ALL_KINDS = ['qualdecl', 'classprop', 'classprop', 'qualval', 'instance',
+             'instance', 'instance', 'pragma', 'refdecl', 'method',
+             'fragment', 'duplicate', 'alias', 'embedded', 'instkeys',
+             'depclass', 'depclass', 'subclass']
+# what a repository that resolves classes (the mock) looks at
+RESOLVER_KINDS = ['subclass', 'subclass', 'subclass', 'depclass', 'classprop',
+                  'qualval', 'refdecl', 'method', 'duplicate']
+
+
+def directed(rng, n, kinds=None):
     """(label, text): one malformed or borderline construct after the valid
     preamble."""
     v = lambda: rng.choice(VALUES)  # noqa: E731
@@ -498,11 +543,57 @@ def directed(rng, n):
                              '[%s : %s] ' % (rng.choice(QNAMES),
                                              rng.choice(FLAVORS)),
                              '[Key, Key] ', '[] '])  # noqa: E731
-    kind = rng.choice(['qualdecl', 'classprop', 'classprop', 'qualval',
-                       'instance', 'instance', 'instance', 'pragma', 'refdecl',
-                       'method', 'fragment', 'duplicate', 'alias', 'embedded',
-                       'instkeys'])
-    if kind == 'qualdecl':
+    kind = rng.choice(kinds or ALL_KINDS)
+    if kind == 'depclass':
+        # classes whose elements depend on other classes (references,
+        # embedded instances) that exist, are missing or are not named
+        feats = []
+        for k in range(rng.choice([1, 2, 2, 3, 4])):
+            r = rng.random()
+            dep = rng.choice(CLASSES + ['Missing%d' % k, 'VC%d' % n])
+            if r < 0.35:
+                feats.append('%s%s REF r%d;' % (ql(), dep, k))
+            elif r < 0.75:
+                feats.append('%s%s e%d%s;' % (
+                    rng.choice(EMBEDDED_QUALS), rng.choice(
+                        ['string', 'string', 'string', 'uint8']), k, arr()))
+            elif r < 0.9:
+                feats.append('uint8 m%d(%s REF a, %sstring b);' % (
+                    k, dep, rng.choice(EMBEDDED_QUALS)))
+            else:
+                feats.append('%s%s p%d;' % (ql(), t(), k))
+        body = '%sclass VC%d %s{ %s };' % (
+            rng.choice(['', '', '[Association] ']), n,
+            rng.choice(['', '', ': VF_Base ', ': Nope ']), ' '.join(feats))
+    elif kind == 'subclass':
+        # redefinition of inherited elements with and without Override
+        feats = []
+        for k in range(rng.choice([1, 1, 2, 3])):
+            ov = rng.choice(['', '', '[Override("%s")] ' % rng.choice(PROPS),
+                             '[Override("%s")] ' % rng.choice(PROPS),
+                             '[Override] ', '[Override(NULL)] ',
+                             '[Override("m")] ', '[Key] ',
+                             '[Key, Override("Id")] '])
+            what = rng.choice(['prop', 'prop', 'prop', 'ref', 'meth'])
+            name = rng.choice(PROPS + ['m', 'newp%d' % k])
+            if what == 'prop':
+                feats.append('%s%s %s%s%s;' % (
+                    ov, rng.choice(['string', 'string', 'uint8', t()]), name,
+                    rng.choice(['', '', '', arr()]),
+                    ' = ' + v() if rng.random() < 0.1 else ''))
+            elif what == 'ref':
+                feats.append('%s%s REF %s;' % (ov, rng.choice(CLASSES), name))
+            else:
+                feats.append('%s%s %s(%s);' % (ov, t(), name, rng.choice(
+                    ['', 'string a', 'uint8 a[]', 'VF_Base REF a'])))
+        body = '%sclass VS%d : %s { %s };' % (
+            ql() if rng.random() < 0.2 else '', n,
+            rng.choice(['VF_Base', 'VF_Base', 'VF_Sub', 'VF_Assoc', 'VS0']),
+            ' '.join(feats))
+        if rng.random() < 0.3:
+            body = 'class VF_M { uint8 m(string a); string Id; };\n' + \
+                body.replace(': VF_Base', ': VF_M')
+    elif kind == 'qualdecl':
         flv = rng.choice(['', '', ', Flavor(%s)' % ', '.join(
             rng.sample(FLAVORS, rng.randint(0, 3)))])
         body = 'Qualifier VQ%d : %s%s = %s, Scope(%s)%s;' % (
@@ -598,7 +689,21 @@ def directed(rng, n):
             'instance of VK%d { k = NULL; d = NULL; };' % (n, n),
             'class VK%d { [Key] string k[]; }; instance of VK%d '
             '{ k = {"a"}; };' % (n, n)])
-    return 'directed:' + kind, PRE + body + '\n'
+    pre = PRE
+    if rng.random() < 0.18 and kind != 'pragma':
+        # a namespace pragma in front of everything, or between the
+        # declarations and the construct: every look-up that follows
+        # (qualifier declarations, superclasses, dependent classes, classes
+        # of instances) happens in that namespace
+        pragma = '#pragma namespace ("%s")\n' % rng.choice(PRAGMA_NAMESPACES)
+        if rng.random() < 0.35:
+            pre = pragma + PRE
+        else:
+            quals = PRE[:PRE.index('class VF_Base')]
+            body = pragma + rng.choice(['', quals, quals, quals,
+                                        PRE[:PRE.index('\n') + 1]]) + body
+        kind += '+pragma-namespace'
+    return 'directed:' + kind, pre + body + '\n'
 
 
 # ------------------------------------------------------------ the oracle ----
@@ -644,6 +749,14 @@ def escape_key(exc):
                   'p_instanceDeclaration'):
             if names.count(f) > 5:
                 return 'exc=RecursionError@file-cycle-through:' + f
+    if isinstance(exc, ValueError) and \
+            'for integer string conversion' in str(exc):
+        # one mechanism wherever it surfaces (lexer, error messages, error
+        # context): an integer literal beyond Python's int/str digit limit
+        return 'exc=ValueError@integer-literal-beyond-int-str-digit-limit'
+    if isinstance(exc, UnicodeDecodeError) and frames[-1].name in (
+            'compile_file', 'decode'):
+        return 'exc=UnicodeDecodeError@compile_file:file-not-utf8'
     if 'create_namespace(' in line:
         return 'exc=%s@%s:create_namespace' % (tname, 'p_*')
     if name == 'p_mp_setQualifier' and ('DeleteQualifier(' in line or
@@ -660,6 +773,10 @@ def escape_key(exc):
             nxt = frames[-1]
             return 'exc=%s@%s>>%s.%s' % (tname, name, os.path.basename(
                 nxt.filename)[:-3], nxt.name)
+        if nxt.name == '__init__':
+            # building the MOFCompileError itself failed: the helper that
+            # raised is the mechanism
+            nxt = frames[-1]
         return 'exc=%s@%s>%s.%s' % (tname, name,
                                     os.path.basename(nxt.filename)[:-3],
                                     nxt.name)
@@ -690,19 +807,56 @@ class Outcome:
             self.cls = 'other:' + type(exc).__name__
 
 
-def check_position(ctx, exc, text, files, detail):
+def block_comment_newlines(src, upto):
+    """Number of line feeds inside /* */ comments that end before offset
+    `upto` of src."""
+    n = pos = 0
+    for tok in tokenize(src):
+        pos += len(tok)
+        if pos > upto:
+            break
+        if tok.startswith('/*'):
+            n += tok.count('\n')
+    return n
+
+
+def true_line_from_context(exc, lines):
+    """The line index (0-based) that the context lines of the error show,
+    if they determine one."""
+    try:
+        shown = list(exc.context[:-1])
+    except Exception:  # pylint: disable=broad-except
+        return None
+    if not shown:
+        return None
+    stripped = [x.strip('\r\n') for x in lines]
+    hits = [k for k in range(len(stripped))
+            if stripped[k] == shown[-1] and
+            stripped[max(0, k - len(shown) + 1):k + 1] ==
+            shown[-(min(len(shown), k + 1)):]]
+    return hits[0] if len(hits) == 1 else None
+
+
+def check_position(ctx, exc, text, files, detail, expect_file=False):
     """line/column/file of a MOFCompileError must identify a position
-    inside the offending input."""
+    inside the offending input: the file is the input that has the error,
+    the line exists in it and the column exists in that line.
+
+    expect_file: the harness knows which input is the offending one (every
+    other file involved is valid MOF that compiles on its own): text if it is
+    a string compiled without file name."""
     if exc.lineno is None:
         ctx.outcome('position:none')
         return
     src = None
+    binary = False
     if exc.file is None:
         src = text
     else:
         f = os.path.abspath(exc.file)
         if files is not None and f in files:
             src = files[f]
+            binary = isinstance(src, bytes)
         elif os.path.isfile(f):
             try:
                 src = read(f)
@@ -710,11 +864,22 @@ def check_position(ctx, exc, text, files, detail):
                 src = None
     emb = passes_through(exc, 'compile_embedded_value')
     sfx = '.in-embedded-instance-value' if emb else ''
+    if expect_file and text is not None and exc.file is not None:
+        ctx.violation('position.wrong-file.after-nested-compile' + sfx,
+                      'the error is in the MOF string that was compiled '
+                      '(the files it includes or depends on are valid and '
+                      'were compiled), but %s names file %r, line %r column '
+                      '%r: %s' % (type(exc).__name__, exc.file, exc.lineno,
+                                  exc.column, short(exc.msg, 200)), detail)
+        return
     if exc.file is None and files is not None and text is None:
         ctx.violation('position.file-missing' + sfx,
                       'compile_file() raised %s with line %r but file=None: '
                       '%s' % (type(exc).__name__, exc.lineno,
                               short(exc.msg, 200)), detail)
+        return
+    if binary:
+        ctx.outcome('position:in-undecodable-file')
         return
     if src is None:
         ctx.violation('position.file-unknown' + sfx,
@@ -722,23 +887,48 @@ def check_position(ctx, exc, text, files, detail):
                       % (type(exc).__name__, exc.file), detail)
         return
     lines = src.split('\n')
-    ok_line = isinstance(exc.lineno, int) and 1 <= exc.lineno <= len(lines)
-    ok_col = isinstance(exc.column, int) and \
-        0 <= exc.column <= max(len(x) for x in lines) + 1
-    if not ok_line or not ok_col:
+    where = ' file %s' % exc.file if exc.file else ''
+    if not (isinstance(exc.lineno, int) and 1 <= exc.lineno <= len(lines)):
         ctx.violation('position.outside-input' + sfx,
                       '%s reports line %r column %r, the input%s has %d '
-                      'lines (longest %d): %s' % (
+                      'lines: %s' % (
+                          type(exc).__name__, exc.lineno, exc.column, where,
+                          len(lines), short(exc.msg, 200)), detail)
+        return
+    line = lines[exc.lineno - 1]
+    if not (isinstance(exc.column, int) and
+            0 <= exc.column <= len(line) + 1):
+        # line and column do not denote a place in the input.  Which
+        # mechanism?  The context lines are cut out of the text at the
+        # offset of the token and show the line it is on.
+        key = 'position.column-outside-line'
+        true = true_line_from_context(exc, lines)
+        if true is not None and true + 1 != exc.lineno:
+            offset = sum(len(x) + 1 for x in lines[:true])
+            k = block_comment_newlines(src, offset)
+            if k and true + 1 - exc.lineno == k:
+                key = 'position.line.newlines-in-block-comment-not-counted'
+            else:
+                key = 'position.line-and-column-of-different-lines'
+        ctx.violation(key + sfx,
+                      '%s reports line %r column %r, but line %r of the '
+                      'input%s has %d characters%s: %s' % (
                           type(exc).__name__, exc.lineno, exc.column,
-                          ' file %s' % exc.file if exc.file else '',
-                          len(lines), max(len(x) for x in lines),
+                          exc.lineno, where, len(line),
+                          '' if true is None else
+                          ' (its context lines show line %d)' % (true + 1),
                           short(exc.msg, 200)), detail)
         return
     ctx.outcome('position:inside')
+    true = true_line_from_context(exc, lines)
+    if true is not None and true + 1 != exc.lineno:
+        # not asked for by the statement (a position inside the input, not
+        # the exact token): counted, not judged
+        ctx.outcome('position:inside-but-context-shows-another-line')
 
 
 def judge(ctx, api, exc, text, detail, files=None, missing_ok=True,
-          bad_namespace=False):
+          bad_namespace=False, expect_file=False):
     """Decide one observed outcome.  Returns the Outcome."""
     out = Outcome(exc)
     ctx.outcome(api + ':' + out.cls)
@@ -747,7 +937,7 @@ def judge(ctx, api, exc, text, detail, files=None, missing_ok=True,
     if isinstance(exc, MOFCompileError):
         if not isinstance(exc, Error):
             ctx.violation('moferror-not-a-pywbem-error', repr(exc), detail)
-        check_position(ctx, exc, text, files, detail)
+        check_position(ctx, exc, text, files, detail, expect_file)
         return out
     if isinstance(exc, OSError) and missing_ok and (
             str(exc).startswith('No such file') or
@@ -800,7 +990,16 @@ def register(ctx, out, text):
         ctx.nontrivial(h64((out.cls, msg, h64(text or ''))))
 
 
-def gen_input(ctx, rng, n):
+def gen_input(ctx, rng, n, kinds=None):
+    label, text = _gen_input(ctx, rng, n, kinds)
+    if rng.random() < 0.12:
+        return label + '+line-ends', line_structure(rng, text)
+    return label, text
+
+
+def _gen_input(ctx, rng, n, kinds=None):
+    if kinds is not None and rng.random() < 0.5:
+        return directed(rng, n, kinds)
     r = rng.random()
     if r < 0.12:
         return 'random', random_text(rng)
@@ -904,8 +1103,8 @@ def mode_faked(ctx, rng, i):
     conn = FakedWBEMConnection()
     failed = False
     history = []
-    for n in range(rng.choice([1, 2, 3])):
-        label, text = gen_input(ctx, rng, n)
+    for n in range(rng.choice([2, 3, 4])):
+        label, text = gen_input(ctx, rng, n, RESOLVER_KINDS)
         ns = rng.choice([None, None, 'root/cimv2', 'root/nonexistent'])
         ctx.evaluated()
         ctx.cls('faked/' + label)
@@ -945,6 +1144,40 @@ def mode_faked(ctx, rng, i):
                           'MOF compiles to different objects: %s' % d, detail)
 
 
+def not_utf8(rng, text):
+    """Bytes that are not valid UTF-8 (what a file in another encoding or a
+    damaged file holds)."""
+    r = rng.random()
+    if r < 0.4:
+        return ('// caf\xe9 \xfc\n' + text).encode('latin-1', 'replace')
+    if r < 0.6:
+        return text.encode('utf-16')
+    if r < 0.8:
+        b = text.encode('utf-8')
+        k = rng.randrange(len(b) + 1)
+        return b[:k] + rng.choice([b'\xff', b'\xc3', b'\xed\xa0\x80',
+                                   b'\x80']) + b[k:]
+    return bytes(rng.randrange(256) for _ in range(rng.randint(1, 200))) + \
+        b'\xfe\xff'
+
+
+def write_files(d, content):
+    """Write {relative name: str or bytes}; returns {absolute path: content}."""
+    files = {}
+    for n, text in content.items():
+        path = os.path.join(d, n)
+        if isinstance(text, bytes):
+            with open(path, 'wb') as f:
+                f.write(text)
+        else:
+            with open(path, 'w', encoding='utf-8', newline='') as f:
+                f.write(text)
+        # (compile_file() reads with universal newlines)
+        files[os.path.abspath(path)] = text if isinstance(text, bytes) \
+            else re.sub('\r\n?', '\n', text)
+    return files
+
+
 def mode_file(ctx, rng, i):
     """Include structures on disk."""
     d = tempfile.mkdtemp(prefix='case%d-' % i, dir=ctx.state['tmp'])
@@ -959,7 +1192,8 @@ def _mode_file(ctx, rng, i, d):
              'qualifiers.mof']
     os.makedirs(os.path.join(d, 'sub'))
     shape = rng.choice(['self', 'mutual', 'missing', 'chain', 'chain',
-                        'error-in-include', 'dependency', 'deep-missing'])
+                        'error-in-include', 'dependency', 'dependency',
+                        'deep-missing', 'not-utf8'])
     content = {}
     body = lambda n: directed(rng, n)[1][len(PRE):] if rng.random() < 0.5 \
         else 'class F%d_%d { string p; };\n' % (i % 1000, n)  # noqa: E731
@@ -982,15 +1216,35 @@ def _mode_file(ctx, rng, i, d):
         content['main.mof'] = PRE + '\n' * rng.randint(0, 5) + inc('a.mof')
         content['a.mof'] = '\n' * rng.randint(0, 40) + mutate(
             rng, 'class FE%d { [Key] string k; uint8 v = 5; };\n' % i)[1]
+    elif shape == 'not-utf8':
+        # a file of the include graph is not text in UTF-8
+        content['main.mof'] = PRE + inc('a.mof') + body(0)
+        content['a.mof'] = body(1) + inc('sub/c.mof')
+        content['sub/c.mof'] = body(2)
+        victim = rng.choice(['main.mof', 'a.mof', 'sub/c.mof'])
+        content[victim] = not_utf8(rng, content[victim])
     elif shape == 'dependency':
-        # superclass / qualifier files found through the search path
-        content['main.mof'] = rng.choice(['', PRE]) + \
-            'class FD%d : VF_Dep { [Description("x")] string q; };\n' % i
+        # superclass / dependent class / class of an instance / qualifier
+        # files found through the search path; the file may define what its
+        # name promises, something else, nothing, or not be readable as text
+        content['main.mof'] = rng.choice(['', PRE, PRE]) + rng.choice([
+            'class FD%d : VF_Dep { [Description("x")] string q; };\n' % i,
+            'instance of VF_Dep { p = "x"; };\n',
+            'class FD%d { VF_Dep REF r; };\n' % i,
+            'class FD%d { [EmbeddedInstance("VF_Dep")] string e; };\n' % i,
+            'class FD%d { uint8 m(VF_Dep REF a); };\n' % i,
+            'class FD%d { VF_Dep REF r; [EmbeddedInstance] string e; };\n'
+            % i])
         content['VF_Dep.mof'] = rng.choice([
+            'class VF_Dep { string p; };\n',
             'class VF_Dep { string p; };\n',
             'class VF_Dep : VF_Dep { };\n',
             'class VF_Dep : FD%d { };\n' % i,
-            'class Other { };\n', 'garbage', ''])
+            'class VF_Dep { VF_Dep2 REF r; };\n',
+            'class Other { };\n', 'garbage', '',
+            inc('nothere.mof'),
+            'instance of VF_Dep { p = "y"; };\n',
+            not_utf8(rng, 'class VF_Dep { string p; };\n')])
         if rng.random() < 0.5:
             content['qualifiers.mof'] = rng.choice([
                 PRE, 'Qualifier Description : string = null, Scope(any);\n',
@@ -999,18 +1253,14 @@ def _mode_file(ctx, rng, i, d):
         content['main.mof'] = PRE + inc('a.mof')
         content['a.mof'] = inc('sub/c.mof')
         content['sub/c.mof'] = inc('nothere.mof')
-    files = {}
-    for n, text in content.items():
-        path = os.path.join(d, n)
-        with open(path, 'w', encoding='utf-8') as f:
-            f.write(text)
-        files[os.path.abspath(path)] = text
+    files = write_files(d, content)
     main = os.path.join(d, 'main.mof')
     if shape == 'missing' and rng.random() < 0.2:
         main = os.path.join(d, 'absent.mof')
     use_faked = rng.random() < 0.25
     detail = {'api': 'compile_file', 'shape': shape,
-              'files': {n: short(t, 1500) for n, t in content.items()}}
+              'files': {n: short(t if isinstance(t, str) else repr(t), 1500)
+                        for n, t in content.items()}}
     ctx.evaluated()
     ctx.cls('file:' + shape + ('/faked' if use_faked else ''))
     handle = comp = None
@@ -1028,9 +1278,202 @@ def _mode_file(ctx, rng, i, d):
     if exc is TIMED_OUT:
         return
     out = judge(ctx, detail['api'], exc, None, detail, files=files)
-    register(ctx, out, shape + repr(sorted(content.items())))
+    register(ctx, out, shape + repr(sorted(content.items(), key=repr)))
     if exc is not None and comp is not None:
         reuse_check(ctx, comp, handle, 0, detail)
+
+
+# ---- sessions: one compiler object, files and strings, failures in between --
+
+SESSION_FILES = {
+    'main.mof': PRE + '#pragma include ("a.mof")\n'
+                'class SM_Main { [Key] string k; SA_A REF r; };\n',
+    'a.mof': 'class SA_A { [Key] string k; };\n'
+             '#pragma include ("sub/c.mof")\n'
+             'class SA_A2 : SA_A { SC_C REF c; };\n',
+    'sub/c.mof': 'class SC_C { [Key] string k; uint8 v = 5; };\n',
+    'VS_Dep.mof': 'class VS_Dep { [Key] string k; string p; };\n',
+    'other.mof': PRE + 'class SO_Other : VS_Dep { string q; };\n'
+                 'instance of VS_Dep { k = "1"; p = "x"; };\n',
+}
+SESSION_VICTIMS = ['a.mof', 'sub/c.mof', 'VS_Dep.mof', 'main.mof']
+TAILS_BAD = ['class ST { string p = ; };', '$', 'class ST { uint8 u = 300; };',
+             'instance of SC_C { nope = 1; };', 'instance of Nope { k = 1; };',
+             '[Nope] class ST { };', 'class ST : Nope { };', 'class ST {',
+             'class ST { string p = "x', 'Qualifier Q : uint8 = "s", '
+             'Scope(any);', 'class ST { Nope REF r; };', '#pragma include '
+             '("nothere.mof")', '}', 'instance of VS_Dep { k = "2"; p = 5 };']
+
+
+def session_damage(rng, name, text):
+    kind = rng.choice(['missing', 'missing', 'syntax', 'not-utf8',
+                       'other-content', 'empty', 'self-include',
+                       'missing-include'])
+    if kind == 'missing':
+        return kind, None
+    if kind == 'syntax':
+        return kind, mutate(rng, text, nmut=1)[1] + ' $'
+    if kind == 'not-utf8':
+        return kind, not_utf8(rng, text)
+    if kind == 'other-content':
+        return kind, 'class Unrelated_%d { string p; };\n' % rng.randint(0, 9)
+    if kind == 'empty':
+        return kind, rng.choice(['', '\n', '// nothing\n'])
+    if kind == 'self-include':
+        return kind, text + '#pragma include ("%s")\n' % os.path.basename(name)
+    return kind, text + '#pragma include ("nothere%d.mof")\n' % rng.randint(0, 3)
+
+
+def session_apply(d, name, content):
+    path = os.path.join(d, name)
+    if content is None:
+        if os.path.exists(path):
+            os.remove(path)
+    elif isinstance(content, bytes):
+        with open(path, 'wb') as f:
+            f.write(content)
+    else:
+        with open(path, 'w', encoding='utf-8', newline='') as f:
+            f.write(content)
+
+
+def session_call(rng, d, damaged):
+    """(label, api, argument, text or None, expect_file): one compile call
+    of a session."""
+    r = rng.random()
+    lines = '\n' * rng.choice([0, 1, 3, 10, 40])
+    if r < 0.35:
+        name = rng.choice(['main.mof', 'main.mof', 'other.mof', 'a.mof',
+                           'sub/c.mof', 'absent.mof'])
+        return 'file:' + name, 'file', os.path.join(d, name), None, False
+    if r < 0.7:
+        # a string that causes nested file compiles (include pragma with an
+        # absolute path, classes found on the search path), then goes on
+        head = rng.choice([
+            PRE + '#pragma include ("%s")\n' % os.path.join(d, 'a.mof'),
+            PRE + '#pragma include ("%s")\n' % os.path.join(d, 'sub',
+                                                            'c.mof'),
+            '#pragma include ("%s")\n' % os.path.join(d, 'main.mof'),
+            PRE + 'class SX_Sub : VS_Dep { string q; };\n',
+            PRE + 'instance of VS_Dep { k = "s"; };\n',
+            PRE + 'class SX_Ref { VS_Dep REF r; };\n',
+            PRE + '#pragma include ("%s")\n' % os.path.join(d, 'a.mof') +
+            'class SX_Ref { SC_C REF r; VS_Dep REF d; };\n'])
+        good = rng.random() < 0.35
+        tail = 'class ST_Tail { string p; };' if good else \
+            rng.choice(TAILS_BAD)
+        text = head + lines + tail + '\n'
+        # if every file is intact the nested compiles succeed and the only
+        # error is in the string itself
+        return ('string:nested+' + ('valid' if good else 'error'), 'string',
+                text, text, not damaged and not good)
+    if r < 0.85:
+        text = PRE + lines + rng.choice(TAILS_BAD) + '\n'
+        return 'string:error', 'string', text, text, False
+    text = PRE + 'class ST_Plain { string p; };\n'
+    return 'string:valid', 'string', text, text, False
+
+
+def session_run(comp, api, arg, ns):
+    if api == 'file':
+        comp.compile_file(arg, ns)
+    else:
+        comp.compile_string(arg, ns)
+
+
+def mode_session(ctx, rng, i):
+    d = tempfile.mkdtemp(prefix='sess%d-' % i, dir=ctx.state['tmp'])
+    try:
+        _mode_session(ctx, rng, i, d)
+    finally:
+        shutil.rmtree(d, ignore_errors=True)
+
+
+def _mode_session(ctx, rng, i, d):
+    os.makedirs(os.path.join(d, 'sub'))
+    current = dict(SESSION_FILES)
+    for name, text in current.items():
+        session_apply(d, name, text)
+    damaged = {}
+    handle = MOFWBEMConnection()
+    comp = MOFCompiler(handle, search_paths=[d], log_func=None)
+    failed_before = False
+    history = []
+    for step in range(rng.choice([3, 4, 6])):
+        # ---- the files change between calls: damage or repair -------------
+        r = rng.random()
+        if damaged and r < 0.5:
+            for name in list(damaged):
+                current[name] = SESSION_FILES[name]
+                session_apply(d, name, current[name])
+            damaged.clear()
+            history.append('all files restored')
+        elif not damaged and r < (0.7 if step == 0 else 0.3):
+            name = rng.choice(SESSION_VICTIMS)
+            kind, content = session_damage(rng, name, SESSION_FILES[name])
+            current[name] = content
+            session_apply(d, name, content)
+            damaged[name] = kind
+            history.append('%s: %s' % (name, kind))
+        label, api, arg, text, expect_file = session_call(rng, d,
+                                                          bool(damaged))
+        ns = 'root/s%d' % step
+        files = {os.path.abspath(os.path.join(d, n)): (
+            c if isinstance(c, bytes) else re.sub('\r\n?', '\n', c))
+            for n, c in current.items() if c is not None}
+        ctx.evaluated()
+        ctx.cls('session:' + label + ('/damaged:' + ','.join(sorted(
+            damaged.values())) if damaged else ''))
+        history.append('%s %s' % (
+            'compile_file' if api == 'file' else 'compile_string',
+            short(arg.replace(d, '<dir>'), 300)))
+        detail = {'api': 'compile_' + api, 'session': list(history),
+                  'damaged_files': dict(damaged),
+                  'text': short(text or '', 2000).replace(d, '<dir>')}
+        exc = guarded(ctx, 'session/compile_' + api,
+                      lambda: session_run(comp, api, arg, ns), detail)
+        if exc is TIMED_OUT:
+            return
+        out = judge(ctx, 'session/compile_' + api, exc, text, detail,
+                    files=files, expect_file=expect_file)
+        register(ctx, out, label + repr(sorted(damaged.items())) +
+                 (text or arg).replace(d, ''))
+        if failed_before:
+            # "after a failed compile the same compiler compiles valid MOF
+            # correctly": valid is what a fresh compiler on a fresh
+            # repository compiles; the objects must be the same
+            ctx.count('reuse-check')
+            ctx.count('reuse-check.session')
+            h2 = MOFWBEMConnection()
+            c2 = MOFCompiler(h2, search_paths=[d], log_func=None)
+            exc2 = guarded(ctx, 'session/fresh', lambda: session_run(
+                c2, api, arg, ns), detail)
+            if exc2 is None and exc is not None:
+                ctx.violation(
+                    'reuse.valid-mof-fails:' + (
+                        'exc=%s:%s' % (type(exc).__name__,
+                                       stem(getattr(exc, 'msg', '')))
+                        if isinstance(exc, MOFCompileError)
+                        else escape_key(exc) if not isinstance(exc, OSError)
+                        else 'exc=OSError'),
+                    'after a failed compile the same MOFCompiler object '
+                    'does not compile MOF that a fresh compiler compiles '
+                    '(%s): %s: %s' % (label, type(exc).__name__,
+                                      short(str(exc), 300)), detail)
+            elif exc2 is None and exc is None:
+                dd = snap_diff(snapshot_handle(h2, ns),
+                               snapshot_handle(handle, ns))
+                if dd:
+                    ctx.violation(
+                        'reuse.objects-differ',
+                        'after a failed compile the same MOFCompiler object '
+                        'compiles %s to other objects than a fresh compiler: '
+                        '%s' % (label, dd), detail)
+        if exc is not None:
+            failed_before = True
+            ctx.count('session.failures')
+            if not reuse_check(ctx, comp, handle, 100 + step, detail):
+                return
 
 
 FAULT_MOF = PRE + '''
@@ -1147,11 +1590,13 @@ def mode_fault(ctx, rng, i):
 
 def run_case(ctx, i, rng):
     r = rng.random()
-    if r < 0.52:
+    if r < 0.38:
         mode_string(ctx, rng, i)
-    elif r < 0.62:
+    elif r < 0.55:
         mode_faked(ctx, rng, i)
-    elif r < 0.78:
+    elif r < 0.68:
         mode_file(ctx, rng, i)
+    elif r < 0.82:
+        mode_session(ctx, rng, i)
     else:
         mode_fault(ctx, rng, i)
